@@ -284,10 +284,10 @@ func registerResolver() {
 	}
 	register(&PropSpec{
 		ID: "C08", Pkg: "argmapper",
-		Quick:    []Shard{w8("HarnessC08", 1, 1, 1, 0, 1, 2), w8("HarnessC08", 1, 2, 1, 11, 1, 1), w8("HarnessC08", 1, 1, 1, 11, 1, 2), w8("HarnessC08", 5, 1, 1, 1111, 3, 1), w8("HarnessC08", 0, 2, 1, 11, 0, 0)},
-		Thorough: []Shard{w8("HarnessC08", 1, 1, 1, 0, 1, 2), w8("HarnessC08", 1, 2, 1, 11, 1, 1), w8("HarnessC08", 1, 1, 1, 11, 1, 2), w8("HarnessC08", 5, 1, 1, 1111, 3, 2), w8("HarnessC08", 0, 2, 1, 11, 0, 0), w8("HarnessC08", 5, 2, 1, 1111, 1, 1), w8("HarnessC08", 5, 1, 0, 111111, 1, 1), w8("HarnessC08", 4, 1, 1, 1111, 1, 1), w8("HarnessC08", 0, 1, 1, 11, 9, 1)},
-		Covers:   []string{"C08.redefine-returned", "C08.redefine-succeeded", "C08.redefined-call-checked", "C08.output-filter-rejection"},
-		Bounds:   []string{"worlds restricted (by assumption) to the property's domain: converters with <=1 input, no subtypes, each name one type; <=2 target parameters, <=2 supplied values, chains of <=2 (quick) / 3 (thorough) converters", "input and output filters are uninterpreted predicates: one symbolic Bool per (name,type) asked"},
+		Quick:    []Shard{w8("HarnessC08", 1, 1, 1, 0, 1, 2), w8("HarnessC08", 1, 2, 1, 11, 1, 1), w8("HarnessC08", 1, 1, 1, 11, 1, 2), w8("HarnessC08", 5, 1, 1, 1111, 3, 1), w8("HarnessC08", 0, 2, 1, 11, 0, 0), w8("HarnessC08", 8, 1, 1, 11, 1, 4), w8("HarnessC08", 4, 1, 1, 11, 1, 4)},
+		Thorough: []Shard{w8("HarnessC08", 8, 1, 1, 11, 1, 4), w8("HarnessC08", 4, 1, 1, 11, 1, 4), w8("HarnessC08", 0, 1, 1, 11, 9, 4), w8("HarnessC08", 1, 1, 1, 0, 1, 2), w8("HarnessC08", 1, 2, 1, 11, 1, 1), w8("HarnessC08", 1, 1, 1, 11, 1, 2), w8("HarnessC08", 5, 1, 1, 1111, 3, 2), w8("HarnessC08", 0, 2, 1, 11, 0, 0), w8("HarnessC08", 5, 2, 1, 1111, 1, 1), w8("HarnessC08", 5, 1, 0, 111111, 1, 1), w8("HarnessC08", 4, 1, 1, 1111, 1, 1), w8("HarnessC08", 0, 1, 1, 11, 9, 1)},
+		Covers:   []string{"C08.redefine-returned", "C08.redefine-succeeded", "C08.redefined-call-checked", "C08.output-filter-rejection", "C08.library-type-filter"},
+		Bounds:   []string{"worlds restricted (by assumption) to the property's domain: converters with <=1 input, no subtypes, each name one type; <=2 target parameters, <=2 supplied values, chains of <=2 (quick) / 3 (thorough) converters", "input and output filters are uninterpreted predicates: one symbolic Bool per (name,type) asked", "extra=4: the input filter is a symbolic set of the world's types (plus the assignable twin of hList / []int) built from the library's FilterType / FilterOr / FilterAnd; each of its answers is compared with the documented meaning"},
 		Outside:  []string{"multi-input converters, subtypes, names denoting several types (outside the property's domain)", "longer chains"},
 		Assume:   common,
 		Anchored: []string{"(*github.com/hashicorp/go-argmapper.Func).Redefine", "(*github.com/hashicorp/go-argmapper.Func).redefineInputs", "(*github.com/hashicorp/go-argmapper.Func).redefineOutputs", "(*github.com/hashicorp/go-argmapper.Func).zeroFunc", "(*github.com/hashicorp/go-argmapper.Func).callGraph"},
